@@ -277,6 +277,26 @@ def run_cases(ctx, exe, cases, cnt, var, cov, dist, distinct, nested=False):
                 ents.append(Ent(b"o/w/dest/" + b"/".join(comps[:i]), "d", 0o755, OLD + 20 + i))
             ents.append(Ent(cpath, "f", 0o644, OLD + 30, b"in the way") if kind == "d" else Ent(cpath, "d", 0o755, OLD + 30))
             c["conflict_path"] = cpath
+            # further entries of the wrong kind in the same run (Pcp/Deep.lean: any number, at any depth); a directory in
+            # the way holds a file of its own, which must stay
+            c["more_paths"] = []
+            for j, (path2, kind2) in enumerate(c.get("more_conflicts") or []):
+                comps = path2.split(b"/")
+                top = next(t for _, t in c["srcs"] if t.name == comps[0])
+                comps[0] = dest_name(c, b"", top)
+                have = set(e.path for e in ents)
+                for i in range(1, len(comps)):
+                    dpath = b"o/w/dest/" + b"/".join(comps[:i])
+                    if dpath not in have:
+                        ents.append(Ent(dpath, "d", 0o755, OLD + 40 + 3 * j + i))
+                        have.add(dpath)
+                cpath2 = b"o/w/dest/" + b"/".join(comps)
+                if kind2 == "d":
+                    ents.append(Ent(cpath2, "f", 0o644, OLD + 60 + j, b"in the way"))
+                else:
+                    ents.append(Ent(cpath2, "d", 0o750, OLD + 60 + j))
+                    ents.append(Ent(cpath2 + b"/kept", "f", 0o600, OLD + 70 + j, b"kept"))
+                c["more_paths"].append((cpath2, kind2))
         if c.get("overwrite"):
             comps = c["overwrite"].split(b"/")
             top = next(t for _, t in c["srcs"] if t.name == comps[0])
@@ -307,7 +327,7 @@ def run_cases(ctx, exe, cases, cnt, var, cov, dist, distinct, nested=False):
     if not nested:
         ctx.log("%d source trees and jails built" % len(cases))
     env = dict(os.environ, ASAN_OPTIONS="detect_leaks=0")
-    impl = run_batch([exe], ops, timeout=1800, env=env)
+    impl = pcp.par_batch([exe], ops, timeout=1800, env=env)
 
     def rerun(idx):
         for k in idx:
@@ -323,7 +343,7 @@ def run_cases(ctx, exe, cases, cnt, var, cov, dist, distinct, nested=False):
         dist["timeouts_retried"] = dist.get("timeouts_retried", 0) + nre
     if not nested:
         ctx.log("real client/server round trips done")
-    mans = ctx.model("pcp", "".join(l + "\n" for l in mlines), timeout=1800)
+    mans = pcp.par_model(ctx, "pcp", mlines, timeout=1800)
     if not nested:
         ctx.log("model round trips done")
     # specification on the real destination
@@ -349,10 +369,10 @@ def run_cases(ctx, exe, cases, cnt, var, cov, dist, distinct, nested=False):
         slines.append("spec11 %d %s %d %s %s" % (c["p"], hx(dcanon), len(ft), " ".join(ft), " ".join(stoks)))
     if not nested:
         ctx.log("snapshots taken")
-    sans = ctx.model("pcp", "".join(l + "\n" for l in slines), timeout=1800)
+    sans = pcp.par_model(ctx, "pcp", slines, timeout=1800)
     if not nested:
         ctx.log("specification evaluated")
-    errcases = []
+    errcases, deepcases = [], []
     for i, c in enumerate(cases):
         cov["evaluations"] += 1
         ans, crash = impl[i]
@@ -405,13 +425,16 @@ def run_cases(ctx, exe, cases, cnt, var, cov, dist, distinct, nested=False):
             bads = [(p, k) for p, k in bads if not (p == cp or p.startswith(cp + b"/"))]
             if not any(r.startswith("E:") for r in replies):
                 ctx.offender("isolation:unreported", "an entry that could not be written was not reported", cj)
-            # what was in the way is "another file": it must still be what it was
-            rw = snaps[i].get(cp)
-            if c["conflict"][1] == "d" and not (rw and rw["kind"] == "f" and rw["data"] == b"in the way"):
-                ctx.offender("isolation:entry-in-the-way-damaged", "the regular file in the way of the directory %r was "
-                             "replaced or overwritten (now %s)" % (cp, rw and (rw["kind"], (rw["data"] or b"")[:30])), cj)
-            if c["conflict"][1] == "f" and not (rw and rw["kind"] == "d"):
-                ctx.offender("isolation:entry-in-the-way-damaged", "the directory in the way of the file %r is gone" % cp, cj)
+            for cp2, kind2 in c.get("more_paths") or []:
+                bads = [(p, k) for p, k in bads if not (p == cp2 or p.startswith(cp2 + b"/"))]
+                rw2 = snaps[i].get(cp2)
+                if kind2 == "d" and not (rw2 and rw2["kind"] == "f" and rw2["data"] == b"in the way"):
+                    ctx.offender("isolation:entry-in-the-way-damaged", "the regular file in the way of the directory %r was "
+                                 "replaced or overwritten (now %s)" % (cp2, rw2 and (rw2["kind"], (rw2["data"] or b"")[:30])), cj)
+                kept = snaps[i].get(cp2 + b"/kept")
+                if kind2 == "f" and not (rw2 and rw2["kind"] == "d" and kept and kept["kind"] == "f" and kept["data"] == b"kept"):
+                    ctx.offender("isolation:entry-in-the-way-damaged", "the directory in the way of the file %r, or the file "
+                                 "in it, is gone or changed" % cp2, cj)
         expected = {}
         dc = pcp.lexnorm(CWD, c["dest"])
         for _, t in c["srcs"]:
@@ -453,6 +476,9 @@ def run_cases(ctx, exe, cases, cnt, var, cov, dist, distinct, nested=False):
         m = pcp.parse_model(mans[i])
         if int(m["nent"]) != c["nent"]:
             ctx.disagreement("pcp expand", "flattened list has %s entries in the model, %d expected" % (m["nent"], c["nent"]), cj)
+        if (c.get("conflict") or c.get("overwrite")) and not c.get("fsz") and not c.get("refused") and not asname(c) \
+                and var.get("skipref", 0) and not nested:
+            deepcases.append((i, c, cj, f, replies, m))
         if all(r == "A" for r in replies) or (c.get("fsz") and not cp):
             dist["all_acks"] += 1
             # the receiver may end before the sender is done (top-level `E`): the real client then stops at the
@@ -480,7 +506,7 @@ def run_cases(ctx, exe, cases, cnt, var, cov, dist, distinct, nested=False):
             cov["samples"].append(dict(case=cj, spec=sp[:200]))
     # ---- the interactive paths: what the REAL client sent after error replies goes through the receiver model, and
     # for a plain file whose name is taken by a directory the client must have skipped exactly the data and the NUL
-    if errcases and not nested:
+    if (errcases or deepcases) and not nested:
         lines = []
         for i, c, cj, f, replies, m in errcases:
             lines.append("sink %d %d %o %d %d %d %d %s %s %s %s" % (
@@ -491,7 +517,7 @@ def run_cases(ctx, exe, cases, cnt, var, cov, dist, distinct, nested=False):
             c["p"], c["y"], c["um"], cnt, var["rule"], var["dch"], c.get("fsz", 0), hx(CWD), hx(c["dest"]),
             int(c["reverse"]), hx(c["host"]), var["ssec"], var["sfix"], var.get("skipref", 0), len(ents_l[i]),
             " ".join(e.token() for e in ents_l[i]), " ".join(c["stoks"])) for i, c, cj, f, replies, m in errcases]
-        for (i, c, cj, f, replies, m), sl in zip(errcases, ctx.model("pcp", "".join(l + "\n" for l in slines))):
+        for (i, c, cj, f, replies, m), sl in zip(errcases, pcp.par_model(ctx, "pcp", slines)):
             ms = pcp.parse_model(sl)
             dist["sessions_checked"] = dist.get("sessions_checked", 0) + 1
             if ms["c2s"] != f["c2s"]:
@@ -509,7 +535,30 @@ def run_cases(ctx, exe, cases, cnt, var, cov, dist, distinct, nested=False):
             diffs = pcp.compare_fs(ms["fs"], snaps[i], t0)
             if diffs:
                 ctx.disagreement("pcp session file system", "; ".join(diffs[:4]), cj)
-        for (i, c, cj, f, replies, m), ml in zip(errcases, ctx.model("pcp", "".join(l + "\n" for l in lines))):
+        # Pcp/Deep.lean (`error_isolated_deep`): the sources classified against the jail, the file system the theorem
+        # says the receiver ends with and the number of error records it says are sent -- against the real run
+        deep = deepcases
+        dlines = ["deep %d %d %o %d %d %d %d %s %s %d %s %d %d %d %s %s" % (
+            c["p"], c["y"], c["um"], cnt, var["rule"], var["dch"], c.get("fsz", 0), hx(CWD), hx(c["dest"]),
+            int(c["reverse"]), hx(c["host"]), var["ssec"], var["sfix"], len(ents_l[i]),
+            " ".join(e.token() for e in ents_l[i]), " ".join(c["stoks"])) for i, c, cj, f, replies, m in deep]
+        for (i, c, cj, f, replies, m), dl in zip(deep, pcp.par_model(ctx, "pcp", dlines)):
+            if not dl.startswith("replies="):
+                ctx.disagreement("pcp deep", "unexpected answer " + dl[:200], cj)
+                continue
+            md = pcp.parse_model(dl)
+            dist["deep_conflict_cases"] = dist.get("deep_conflict_cases", 0) + 1
+            nerr = sum(1 for r in replies if r.startswith("E:"))
+            key = "%s entries that cannot be written" % md["bad"]
+            dist.setdefault("deep_by_count", {})[key] = dist.setdefault("deep_by_count", {}).get(key, 0) + 1
+            if int(md["bad"]) != nerr:
+                ctx.disagreement("pcp deep: error records", "Pcp/Deep.lean counts %s entries that cannot be written, the real "
+                                 "receiver sent %d error records (%s)" % (md["bad"], nerr, replies[:12]), cj)
+                continue
+            diffs = pcp.compare_fs(md["fs"], snaps[i], t0)
+            if diffs:
+                ctx.disagreement("pcp deep: file system", "; ".join(diffs[:4]), cj)
+        for (i, c, cj, f, replies, m), ml in zip(errcases, pcp.par_model(ctx, "pcp", lines)):
             dist["error_paths_checked"] = dist.get("error_paths_checked", 0) + 1
             mm = pcp.parse_model(ml)
             if mm["replies"] != replies:
@@ -519,7 +568,7 @@ def run_cases(ctx, exe, cases, cnt, var, cov, dist, distinct, nested=False):
             diffs = pcp.compare_fs(mm["fs"], snaps[i], t0)
             if diffs:
                 ctx.disagreement("pcp file system (real client stream with error replies)", "; ".join(diffs[:4]), cj)
-            if c.get("conflict") and c["conflict"][1] == "f" and m["c2s"] != "~":
+            if c.get("conflict") and c["conflict"][1] == "f" and m["c2s"] != "~" and not c.get("more_conflicts"):
                 # sender model of Pcp/Isolated.lean (itemsBytes): the all-positive stream without that file's data + NUL
                 full = pcp.unhx(m["c2s"])
                 node = dict((pa, n) for _, t in c["srcs"] for pa, n in walk(t, []))[c["conflict"][0]]
@@ -537,7 +586,7 @@ def run_cases(ctx, exe, cases, cnt, var, cov, dist, distinct, nested=False):
                     else:
                         dist["skip_after_error_confirmed"] = dist.get("skip_after_error_confirmed", 0) + 1
     for d in (sbase, jbase):
-        shutil.rmtree(d, ignore_errors=True)
+        pcp.rm_bg(d)
 
 
 class Probe:
@@ -687,6 +736,7 @@ def case_json(c):
                 file_size_limit=c.get("fsz", 0), destmode="%o" % c["destmode"], conflict=(c["conflict"][0].decode("latin-1"), c["conflict"][1]) if c["conflict"] else None,
                 overwrite=c["overwrite"].decode("latin-1") if c.get("overwrite") else None,
                 old_extra=c.get("old_extra", 50), refused=bool(c.get("refused")),
+                more_conflicts=[(a.decode("latin-1"), b) for a, b in c.get("more_conflicts") or []],
                 asname=[x.decode("latin-1") for x in c["asname"]] if c.get("asname") else None)
 
 
@@ -704,6 +754,7 @@ def from_json(j, k):
                 overwrite=j["overwrite"].encode("latin-1") if j.get("overwrite") else None, fsz=j.get("file_size_limit", 0),
                 destmode=int(j["destmode"], 8), subsec=any(n.nsec for s in j["sources"] for _, n in walk(mk(s["tree"]), [])),
                 old_extra=j.get("old_extra", 50), refused=j.get("refused", False),
+                more_conflicts=[(a.encode("latin-1"), b) for a, b in j.get("more_conflicts") or []],
                 asname=tuple(x.encode("latin-1") for x in j["asname"]) if j.get("asname") else None)
 
 
@@ -798,6 +849,17 @@ def classes():
     for path, kind in ((b"tree", "d"), (b"tree/sub", "d"), (b"tree/a", "f"), (b"tree/sub/x", "f"), (b"tree/z", "f")):
         for p in (0, 1):
             cs.append(dict(base, p=p, conflict=(path, kind), srcs=[(b"", tree()), (b"", f(b"other file", 7))]))
+    # several entries of the wrong kind in one run, at depth 2, 3 and 4, next to entries that arrive (Pcp/Deep.lean)
+    def tree2():
+        return d(b"tree", [f(b"a", 3), d(b"sub", [f(b"x", 4), d(b"deeper", [f(b"y", 1), d(b"deepest", [f(b"w", 2)])]), f(b"x2", B + 1)]),
+                           d(b"sub2", [f(b"k", 6)]), f(b"z", 5)])
+    for p in (0, 1):
+        cs.append(dict(base, p=p, conflict=(b"tree/a", "f"), more_conflicts=[(b"tree/sub2", "d"), (b"tree/sub/x", "f")],
+                       srcs=[(b"", tree2()), (b"", f(b"other file", 7))]))
+        cs.append(dict(base, p=p, conflict=(b"tree/sub/deeper/y", "f"), more_conflicts=[(b"tree/sub/deeper/deepest", "d")],
+                       srcs=[(b"", tree2())]))
+        cs.append(dict(base, p=p, conflict=(b"tree/sub/deeper", "d"), more_conflicts=[(b"tree/z", "f"), (b"other", "d")],
+                       srcs=[(b"", tree2()), (b"", d(b"other", [f(b"o1", 1)])), (b"", f(b"last", 2))]))
     cs.append(dict(base, conflict=(b"single", "f"), srcs=[(b"", f(b"single", 9)), (b"", f(b"next", B + 3))]))
     cs.append(dict(base, reverse=True, host=b"n1.dom.ain", conflict=(b"single", "f"), srcs=[(b"", f(b"single", 9)), (b"", f(b"next", 3))]))
     # ---- an existing longer file is replaced, not patched
@@ -1275,7 +1337,7 @@ def run_multi(ctx, exe, cases, cnt, var, cov, dist):
                 index0.append((c, i))
     t0 = int(time.time())
     env = dict(os.environ, ASAN_OPTIONS="detect_leaks=0")
-    impl = run_batch([exe], ops, timeout=1800, env=env)
+    impl = pcp.par_batch([exe], ops, timeout=1800, env=env)
 
     def rerun(idx):
         for k in idx:
@@ -1290,7 +1352,7 @@ def run_multi(ctx, exe, cases, cnt, var, cov, dist):
                              lambda a: f_of(a).get("sig") == "997", rerun)
     if nre:
         dist["timeouts_retried"] = dist.get("timeouts_retried", 0) + nre
-    mans = ctx.model("pcp", "".join(l + "\n" for l in mlines + mlines0), timeout=1800)
+    mans = pcp.par_model(ctx, "pcp", mlines + mlines0, timeout=1800)
     res, res0 = {}, {}
     for (c, i), (ans, crash), ml in zip(index, impl, mans):
         res.setdefault(c["k"], {})[i] = (pcp.fields(ans[0]) if ans else {}, crash, pcp.parse_model(ml))
@@ -1504,7 +1566,8 @@ def run(ctx):
                    "3*8192-1..+1 and random small, names with blanks, shell metacharacters, control and non-ASCII bytes "
                    "(no newline, no slash), all 12 mode bits, 1-3 sources given directly or through a sub-path, -p on/off, "
                    "forward and reverse (.host) naming, destination fresh / given as dir, dir/, absolute, new file name; "
-                   "a few cases with an entry of the wrong kind already in the way; plus 2-4 receivers in one process (same "
+                   "a few cases with an entry of the wrong kind already in the way (pinned: several per run, at depth 2-4, "
+                   "compared with Pcp/Deep.lean `dTopFs`/`dTopBad`); plus 2-4 receivers in one process (same "
                    "name list from every host, `.host` names in one directory, on 0..K hosts a name is occupied by a "
                    "directory, input cut at records or at random places); non-trivial = the tree holds >= 1 "
                    "directory and a file >= 8192 bytes; distinct = distinct model input line"}
@@ -1574,6 +1637,26 @@ def run(ctx):
             if bad:
                 ctx.disagreement("pcp process-wide calls", "pcp_server.c calls %s: process-wide state the model of several "
                                  "receivers in one process does not cover" % bad, dict(calls=bad))
+        # ---- what the client threads of a forward copy share: pcp_client.c against Pcp/ClientStatics.lean (the premise of
+        # the product automaton Pcp/FanOut.lean: a session depends on its own target only)
+        cso = pcp.static_objects(REPO, ctx.scratch, "pcp_client.c")
+        cms = pcp.fields(ctx.model("pcp", "cstatics\n")[0])
+        if cso is None:
+            ctx.disagreement("pcp client statics", "pcp_client.c does not compile on its own", {})
+        else:
+            cdefs, ccalls = cso
+            cwant = sorted(x for x in cms["defs"].split(",") if x != "-")
+            dist["client_static_objects"] = cdefs
+            dist["client_process_wide_calls"] = [c for c in ccalls if c in cms["expandonly"].split(",")]
+            if cdefs != cwant:
+                ctx.disagreement("pcp client statics", "pcp_client.c defines the objects of static storage duration %s; the "
+                                 "model of a forward copy to several targets (Pcp/FanOut.lean, Pcp/ClientStatics.lean) accounts "
+                                 "for %s: state that outlives a call is shared by the client threads of all targets" %
+                                 (cdefs, cwant), dict(static_objects=cdefs, model=cwant))
+            bad = [c for c in ccalls if c in cms["forbidden"].split(",")]
+            if bad:
+                ctx.disagreement("pcp client process-wide calls", "pcp_client.c calls %s: process-wide state the model of "
+                                 "several client threads in one process does not cover" % bad, dict(calls=bad))
         if os.environ.get("VERIF_C11_E2E", "1") != "0":
             run_e2e(ctx, cov, dist)
     cov["distinct_nontrivial"] = len(distinct)
